@@ -385,6 +385,225 @@ def g6_error_by_difference_of_squares(fn):
     return findings
 
 
+def _bare_and_attr(expr):
+    """(names used as whole objects, names used only as the base of attribute reads) in an expression"""
+    bare, attr = set(), set()
+
+    def rec(n, parent_attr):
+        if isinstance(n, ast.Name):
+            (attr if parent_attr else bare).add(n.id)
+            return
+        for c in ast.iter_child_nodes(n):
+            rec(c, isinstance(n, ast.Attribute) and c is n.value)
+    rec(expr, False)
+    return bare, attr - bare
+
+
+def g2b_projection_key(fn):
+    """A memo whose key is built from ATTRIBUTES of an object (k0.p, k0.numdofs) while the stored value is computed from the
+    whole object (f(k0, k1)): two different objects that agree in those attributes share one entry."""
+    from . import resolve
+    findings = []
+    for iff, key, cont, store, value in memo_sites(fn):
+        if key is None:
+            continue
+        try:
+            kexpr = resolve.expand(key, iff)
+        except Exception:
+            kexpr = key
+        kb, ka = _bare_and_attr(kexpr)
+        vb, _va = _bare_and_attr(value)
+        lossy = sorted((vb & ka) - {'self', 'cls'})
+        if lossy:
+            findings.append(('G2', store, 'the memo %s is keyed by `%s`, i.e. only by attributes of %s, but the stored value `%s` is computed from the '
+                                          'whole object(s): two different %s that agree in these attributes are served the same entry'
+                             % (src(cont), src(kexpr)[:80], ', '.join(lossy), src(value)[:60], ' / '.join(lossy))))
+    return findings
+
+
+def g11_linear_level_factor(fn):
+    """Cell and function indices of a dyadic hierarchy scale by 2**(level difference).  An index divided or multiplied by
+    2 * (l - k) agrees with that for differences 1 and 2 only."""
+    findings = []
+    for n in ast.walk(fn):
+        if isinstance(n, ast.BinOp) and isinstance(n.op, (ast.FloorDiv, ast.Mult, ast.Div)):
+            for side in (n.right, n.left):
+                if isinstance(side, ast.BinOp) and isinstance(side.op, ast.Mult):
+                    a, b = side.left, side.right
+                    for two, diff in ((a, b), (b, a)):
+                        if isinstance(two, ast.Constant) and two.value == 2 and isinstance(diff, ast.BinOp) and isinstance(diff.op, ast.Sub) \
+                                and isinstance(diff.left, ast.Name) and isinstance(diff.right, ast.Name) \
+                                and _level_like(fn, diff.left.id) and _level_like(fn, diff.right.id):
+                            findings.append(('G11', n, '`%s` scales an index by 2*(%s - %s); between levels %s and %s of a dyadic hierarchy the '
+                                                       'ratio is 2**(%s - %s): the two agree for differences 1 and 2 only'
+                                             % (src(n)[:60], diff.left.id, diff.right.id, diff.right.id, diff.left.id, diff.left.id, diff.right.id)))
+    return findings
+
+
+def _level_like(fn, name):
+    """the name is used as a level: first argument of a hierarchy query (self.hmesh.*, self.mesh(..), cell_parent, ...) or an
+    index into a per-level list (meshes[..], active[..], actfun[..])"""
+    for n in ast.walk(fn):
+        if isinstance(n, ast.Call) and n.args and isinstance(n.args[0], ast.Name) and n.args[0].id == name \
+                and isinstance(n.func, ast.Attribute) and ('cell' in n.func.attr or 'function' in n.func.attr or n.func.attr in ('mesh', 'knotvectors')):
+            return True
+        if isinstance(n, ast.Call) and len(n.args) >= 3 and isinstance(n.args[-1], ast.Name) and n.args[-1].id == name \
+                and isinstance(n.func, ast.Attribute) and 'grandparent' in n.func.attr:
+            return True
+        if isinstance(n, ast.Subscript) and isinstance(n.slice, ast.Name) and n.slice.id == name and isinstance(n.value, ast.Attribute) \
+                and n.value.attr in ('meshes', 'active', 'deactivated', 'actfun', 'deactfun', 'P'):
+            return True
+    return name in ('l', 'k', 'lv', 'lvl', 'level')
+
+
+def g12_triangular_sum_of_asymmetric_summand(fn):
+    """sum(w(e,u) * T(e,u) for e in range(d) for u in range(e, d)) with w = (1 if e == u else 2) equals the full double sum only
+    if T is symmetric in (e, u).  T is compared with itself under e <-> u (two-index factors X[e,u] are taken to be
+    symmetric, as Hessians are)."""
+    from . import treecmp
+    findings = []
+    for n in ast.walk(fn):
+        if not isinstance(n, (ast.GeneratorExp, ast.ListComp)) or len(n.generators) < 2:
+            continue
+        gens = n.generators
+        for i, g in enumerate(gens):
+            if not (isinstance(g.target, ast.Name) and isinstance(g.iter, ast.Call) and src(g.iter.func) == 'range' and len(g.iter.args) == 2):
+                continue
+            lo = g.iter.args[0]
+            outer = [h for h in gens[:i] if isinstance(h.target, ast.Name) and isinstance(lo, ast.Name) and h.target.id == lo.id]
+            if not outer:
+                continue
+            e, u = outer[0].target.id, g.target.id
+            # the doubled off-diagonal weight
+            w = [x for x in ast.walk(n.elt) if isinstance(x, ast.IfExp) and isinstance(x.test, ast.Compare)
+                 and {src(x.test.left), src(x.test.comparators[0])} == {e, u}]
+            if not w:
+                continue
+
+            class Swap(ast.NodeTransformer):
+                def visit_Name(self, node):
+                    if node.id == e:
+                        return ast.copy_location(ast.Name(id=u, ctx=node.ctx), node)
+                    if node.id == u:
+                        return ast.copy_location(ast.Name(id=e, ctx=node.ctx), node)
+                    return node
+
+                def visit_Subscript(self, node):
+                    self.generic_visit(node)
+                    # X[e, u] with both summation indices: symmetric factor, order normalised
+                    if isinstance(node.slice, ast.Tuple) and len(node.slice.elts) == 2 and {src(x) for x in node.slice.elts} == {e, u}:
+                        node.slice.elts = sorted(node.slice.elts, key=src)
+                    return node
+            import copy
+            from .alpha import clone
+            a = Swap().visit(clone(n.elt))
+            b = clone(n.elt)
+
+            class Norm(ast.NodeTransformer):
+                def visit_Subscript(self, node):
+                    self.generic_visit(node)
+                    if isinstance(node.slice, ast.Tuple) and len(node.slice.elts) == 2 and {src(x) for x in node.slice.elts} == {e, u}:
+                        node.slice.elts = sorted(node.slice.elts, key=src)
+                    return node
+            b = Norm().visit(b)
+            if treecmp.compare(a, b)[0] != 'equal':
+                findings.append(('G12', n, 'the double sum over (%s, %s) is restricted to %s <= %s with the off-diagonal terms counted twice, but the '
+                                           'summand is not symmetric under %s <-> %s (only the two-index factor is): mixed terms come out wrong'
+                                 % (e, u, e, u, e, u)))
+    return findings
+
+
+def g13_negated_degree_slice(fn):
+    """x[a:-p] is EMPTY for p == 0 (-0 == 0): a slice bounded by the negated degree needs the degree-0 case handled."""
+    findings = []
+    for n in ast.walk(fn):
+        if not (isinstance(n, ast.Slice) and isinstance(n.upper, ast.UnaryOp) and isinstance(n.upper.op, ast.USub)):
+            continue
+        o = n.upper.operand
+        t = src(o)
+        if not (t == 'p' or t.endswith('.p')):
+            continue
+        facts = guards.dominating_facts(n)
+        base = t
+        handled = False
+        for (txt, pol, _nd) in facts:
+            tt = txt.replace(' ', '')
+            for nm in {base, 'p', 'self.p'}:
+                if (not pol and tt in (nm + '==0', '0==' + nm)) or (pol and tt in (nm + '>0', nm + '>=1', nm + '!=0', '0<' + nm, '1<=' + nm)):
+                    handled = True
+        if not handled:
+            findings.append(('G13', n, 'the slice `%s` is bounded by the negated degree: for degree 0 the bound is -0 == 0 and the slice is empty, so the '
+                                       'result silently degenerates (no case distinction for p == 0 dominates it)' % src(n)))
+    return findings
+
+
+def g14_derived_value_cached_before_source_changes(fn):
+    """self.A = f(self.B) followed, later in the same method, by a statement that rewrites self.B while self.A is not
+    recomputed: self.A describes the old B."""
+    findings = []
+    body = [s for s in fn.body]
+    flat = []
+
+    def walk(stmts, depth):
+        for s in stmts:
+            flat.append(s)
+            for fld in ('body', 'orelse', 'finalbody'):
+                b = getattr(s, fld, None)
+                if isinstance(b, list) and b and isinstance(b[0], ast.stmt) and not isinstance(s, (ast.FunctionDef, ast.AsyncFunctionDef, ast.ClassDef)):
+                    walk(b, depth + 1)
+    walk(body, 0)
+
+    def self_attr_reads(e, seen=None):
+        out = set()
+        for x in ast.walk(e):
+            if isinstance(x, ast.Attribute) and isinstance(x.value, ast.Name) and x.value.id == 'self' and isinstance(x.ctx, ast.Load):
+                out.add(x.attr)
+        return out
+    # locals defined from self attributes (one level): name -> attributes read
+    local_src = {}
+    for s in flat:
+        if isinstance(s, ast.Assign) and len(s.targets) == 1 and isinstance(s.targets[0], ast.Name):
+            local_src.setdefault(s.targets[0].id, set()).update(self_attr_reads(s.value))
+    for i, s in enumerate(flat):
+        if not (isinstance(s, ast.Assign) and len(s.targets) == 1 and isinstance(s.targets[0], ast.Attribute)
+                and isinstance(s.targets[0].value, ast.Name) and s.targets[0].value.id == 'self'):
+            continue
+        A = s.targets[0].attr
+        # only SIZES / counts derived from a container: len(self.B), sum(len(..)), self.B.shape -- values that describe B
+        sized = [c for c in ast.walk(s.value) if isinstance(c, ast.Call) and src(c.func) == 'len']
+        srcs = set()
+        for c in sized:
+            srcs |= self_attr_reads(c)
+            for x in ast.walk(c):
+                if isinstance(x, ast.Name) and x.id in local_src:
+                    srcs |= local_src[x.id]
+        srcs.discard(A)
+        if not srcs:
+            continue
+        for later in flat[i + 1:]:
+            hit = None
+            for x in ast.walk(later):
+                if isinstance(x, ast.Attribute) and isinstance(x.value, ast.Name) and x.value.id == 'self' and x.attr in srcs:
+                    p_ = parent(x)
+                    if isinstance(x.ctx, (ast.Store, ast.Del)):
+                        hit = x.attr
+                    elif isinstance(p_, ast.Subscript) and isinstance(p_.ctx, ast.Del):
+                        hit = x.attr
+                    elif isinstance(p_, ast.Attribute) and isinstance(parent(p_), ast.Call) and parent(p_).func is p_ \
+                            and p_.attr in ('pop', 'remove', 'clear', 'append', 'extend', 'insert'):
+                        hit = x.attr
+            if hit is None:
+                continue
+            recomputed = any(isinstance(z, ast.Assign) and any(isinstance(t, ast.Attribute) and src(t) == 'self.' + A for t in z.targets)
+                             for z in flat[flat.index(later):])
+            if not recomputed:
+                findings.append(('G14', s, '`%s` stores a size derived from self.%s, and a later statement of the same method (`%s`) rewrites '
+                                           'self.%s without recomputing self.%s: the stored size describes the container as it was before'
+                                 % (src(s)[:70], hit, src(later).split('\n')[0][:60], hit, A)))
+            break
+    return findings
+
+
 def g8_meshgrid_indexing(fn):
     """np.meshgrid defaults to indexing='xy', which swaps the first two axes.  pyiga enumerates tensor-product indices in C
     order (first axis slowest) everywhere -- np.unravel_index, itertools.product, ravel() of coefficient arrays -- so a
@@ -554,10 +773,12 @@ def run(ctx, rule):
         sites += len(memo_sites(f.node))
         if f.cls is not None:
             classes.add(f.cls.qual)
-        for det in (g1_stale_after_miss, g2_underkeyed, g4_rebound_parameter_forwarded, g6_error_by_difference_of_squares, g8_meshgrid_indexing,
-                    g9_optional_number_tested_by_truth):
+        for det in (g1_stale_after_miss, g2_underkeyed, g2b_projection_key, g4_rebound_parameter_forwarded, g6_error_by_difference_of_squares,
+                    g8_meshgrid_indexing, g9_optional_number_tested_by_truth, g11_linear_level_factor, g12_triangular_sum_of_asymmetric_summand,
+                    g13_negated_degree_slice, g14_derived_value_cached_before_source_changes):
             for kind, node, msg in det(f.node):
-                what = {'G4': 'option forwarding', 'G6': 'error estimate', 'G8': 'index order', 'G9': 'optional argument'}.get(kind, 'memo discipline')
+                what = {'G4': 'option forwarding', 'G6': 'error estimate', 'G8': 'index order', 'G9': 'optional argument', 'G11': 'dyadic scaling',
+                        'G12': 'symmetric summation', 'G13': 'degree-0 slice', 'G14': 'stale derived value'}.get(kind, 'memo discipline')
                 ctx.violated(rule, f.qual, '%s %s: %s' % (kind, what, src(node)[:80]), node, msg)
     for cq in sorted(classes):
         c = ctx.prog.classes.get(cq)
